@@ -266,6 +266,9 @@ GEN = {
              "Restarts": "TRUE", "Extra": '{"rename", "color", "settings"}'}, 50),
     "C16": ({"TagNames": '{"tag/a", "tag/b", "mark/m"}', "ConvNames": '{"cv"}', "MaxCalls": 10, "MaxViews": 1, "Menu": '"conv"', "Invalid": "FALSE", "Crashes": "TRUE"}, 48),
 }
+# C20 only: webhook / endpoint / config / rename / colour calls next to imports and tagging
+GEN["settings"] = ({"TagNames": '{"tag/a", "tag/b"}', "ConvNames": "{}", "MaxCalls": 12, "MaxViews": 1, "Menu": '"files"', "Invalid": "FALSE",
+                    "Extra": '{"rename", "color", "settings"}'}, 44)
 CONVS = {"C16": ["cv"], "C12": ["cv"]}
 
 MC = {
@@ -568,12 +571,14 @@ def run_c20(ctx):
             uniq.append(sc)
     scheds = uniq
     if os.environ.get("VERIF_ONLY_REGRESS") != "1":
-        for ci, pid in enumerate(["C06", "C16", "C13"]):
+        for ci, pid in enumerate(["C06", "C16", "C13", "settings"]):
             consts, maxlen = GEN[pid]
             consts = dict(consts)
             consts["Crashes"] = "FALSE"
+            consts["Restarts"] = "FALSE"
             convs = ["cv"] if '"cv"' in consts["ConvNames"] else []
-            hs = generate(ctx, consts, maxlen, per, maxlen + 5, [ctx.seed * 1000 + 100 * ci + i for i in range(nseeds)])
+            ns = nseeds * 3 if pid == "settings" else nseeds      # (races with the settings calls need a call right after a job's completion)
+            hs = generate(ctx, consts, maxlen, per, maxlen + 5, [ctx.seed * 1000 + 100 * ci + i for i in range(ns)])
             scheds += [to_schedule("g%d_%d" % (ci, i), h, convs=convs) for i, h in enumerate(hs)]
     # gated: TLC's interleavings; free: no gates, API calls overlap with running jobs
     rows_g, crashes_g, outs_g = run_schedules(ctx, scheds, tag="race_gated", race=True, timeout=3000)
